@@ -137,8 +137,24 @@ func createRedisVersionKey(client *redis.Client, config *RedisConfig) error {
 	return client.Set(redisVersionKey(config), versionString, noExpiration).Err()
 }
 
-func (b *RedisBackend) keyPath(path string) string {
-	return filepath.Join(b.rootDir, pathSeparators.Replace(path))
+// keyPath maps a key path to the Redis key under the root directory.
+// filepath.Join() resolves ".." components, so the result may point outside of
+// the root directory ("../x", "a/../../b"). Redis has no directories to stop that:
+// such a key would belong to somebody else sharing the database. Refuse those paths
+// (and the root itself), like DirectoryBackend does.
+func (b *RedisBackend) keyPath(path string) (string, error) {
+	fullPath := filepath.Join(b.rootDir, pathSeparators.Replace(path))
+	relPath, err := filepath.Rel(b.rootDir, fullPath)
+	if err != nil || relPath == "." || relPath == ".." || strings.HasPrefix(relPath, "../") {
+		b.log.WithField("path", path).Warn("invalid key path used")
+		return "", api.ErrInvalidPath
+	}
+	return fullPath, nil
+}
+
+// internalKeyPath is keyPath for fixed names (lock, version) which are always valid.
+func (b *RedisBackend) internalKeyPath(name string) string {
+	return filepath.Join(b.rootDir, name)
 }
 
 // Close this backend instance, freeing any associated resources.
@@ -156,7 +172,7 @@ func (b *RedisBackend) Close() error {
 
 // Lock acquires an exclusive lock on the store.
 func (b *RedisBackend) Lock() error {
-	lock := b.keyPath(lockKey)
+	lock := b.internalKeyPath(lockKey)
 	deadline := time.Now().Add(maxLockDuration)
 	for time.Now().Before(deadline) {
 		locked, err := b.redis.SetNX(lock, lockToken, maxLockDuration).Result()
@@ -174,7 +190,7 @@ func (b *RedisBackend) Lock() error {
 
 // Unlock releases currently held exclusive lock.
 func (b *RedisBackend) Unlock() error {
-	lock := b.keyPath(lockKey)
+	lock := b.internalKeyPath(lockKey)
 	released, err := b.redis.Del(lock).Result()
 	if err != nil {
 		b.log.WithError(err).Debug("Failed to release Redis lock")
@@ -198,7 +214,10 @@ func (b *RedisBackend) RUnlock() error {
 
 // Get data at given path.
 func (b *RedisBackend) Get(path string) ([]byte, error) {
-	path = b.keyPath(path)
+	path, err := b.keyPath(path)
+	if err != nil {
+		return nil, err
+	}
 	data, err := b.redis.Get(path).Result()
 	if err != nil {
 		b.log.WithError(err).WithField("path", path).Debug("Failed to read key data")
@@ -212,7 +231,10 @@ func (b *RedisBackend) Get(path string) ([]byte, error) {
 
 // Put data at given path.
 func (b *RedisBackend) Put(path string, data []byte) error {
-	path = b.keyPath(path)
+	path, err := b.keyPath(path)
+	if err != nil {
+		return err
+	}
 	base64 := base64.StdEncoding.EncodeToString(data)
 	// Put must fail if there is already a key at given path.
 	set, err := b.redis.SetNX(path, base64, noExpiration).Result()
@@ -257,9 +279,15 @@ func (b *RedisBackend) ListAll() ([]string, error) {
 
 // Rename oldpath into newpath.
 func (b *RedisBackend) Rename(oldpath, newpath string) error {
-	oldpath = b.keyPath(oldpath)
-	newpath = b.keyPath(newpath)
-	err := b.redis.Rename(oldpath, newpath).Err()
+	oldpath, err := b.keyPath(oldpath)
+	if err != nil {
+		return err
+	}
+	newpath, err = b.keyPath(newpath)
+	if err != nil {
+		return err
+	}
+	err = b.redis.Rename(oldpath, newpath).Err()
 	if err != nil {
 		// Unfortunately, there is no error constant :(
 		if strings.HasSuffix(err.Error(), "no such key") {
@@ -273,8 +301,14 @@ func (b *RedisBackend) Rename(oldpath, newpath string) error {
 
 // RenameNX renames oldpath into newpath non-destructively.
 func (b *RedisBackend) RenameNX(oldpath, newpath string) error {
-	oldpath = b.keyPath(oldpath)
-	newpath = b.keyPath(newpath)
+	oldpath, err := b.keyPath(oldpath)
+	if err != nil {
+		return err
+	}
+	newpath, err = b.keyPath(newpath)
+	if err != nil {
+		return err
+	}
 	renamed, err := b.redis.RenameNX(oldpath, newpath).Result()
 	if err != nil || !renamed {
 		// Unfortunately, there is no error constant :(
